@@ -260,6 +260,57 @@ CHECKS = {
         "matplotlib stores the arrays it is given.", "4/C20"),
 }
 
+# additions after the later detection waves and the audit round (appended to the level text; DESIGN.md sections 9, 10)
+EXTRA = {
+    "C01": " Also: the two-phase class (its own simulate), 1500/3000-level runs, zero drawdown (p_frac = p_initial), p_frac exactly "
+           "on a first table row with pseudopressure 0; relaxation is demanded to max(100 x decay bound, 1e-9) drawdowns.",
+    "C02": " Also: the same rungs on uniform time grids against the exact reference (field at t >= 0.3), a late-time ladder run "
+           "until the exact outer-boundary value is 1e-7 of the drawdown (|ln(simulated/exact)| must shrink and extrapolate to 0), "
+           "mixed refinement (uniform grids of 3/7/25 levels, nx 25 -> 1600: coarser field within 4/nx of the finer), initial "
+           "pressures between table rows, 500-psi tables and the two-phase class.",
+    "C03": " Also: the in-place recovery is recomputed by the harness from the stored field and the table (absolute anchor), the "
+           "signed gap at T/4 and T and the ideal plateau error are extrapolated along the ladder, time grids that do not start at 0.",
+    "C04": " Also: one step of 1e7 and steps of 1e3..1e6 at every nx (mesh ratios to 1e13; the fitted mesh constant carries a "
+           "resolution estimate and the nominal nx^2 is used when it is noise), the scaled diffusivity comes from the fluid's public "
+           "lookup, flat stored levels must not move, warnings are counted only if absent from the all-exact baseline, "
+           "module-level functools.partial aliases of the solvers are intercepted too, the two-phase class.",
+    "C05": " Also: M over 21 decades (1e-9 .. 1e12), round trip to 1e-6, partially explicit forecast_cum arguments, Bounds through zero.",
+    "C06": " Also: p_r down to 1e-12 (DAK) / 1e-8 (Hall-Yarbrough), a 40 000-point (thorough 200 000) irrational-offset "
+           "Hall-Yarbrough lattice, wet and contaminated tables; root residual 1e-9.",
+    "C07": " Also: constants that define a named correlation are held to 1e-9, rho_g B_g / gravity is one number over the whole gas "
+           "lattice (1e-11), pressures to p_r = 30 and 20 000 psia, temperatures to 650 F, every oil with a positive bubble point.",
+    "C08": " Also: integer-typed tables, pandas Series and row-filtered frames as input, quadrature calls for neighbours that share "
+           "(T, p, gravity) but not the pseudocritical point before each real call, each contaminant varied alone.",
+    "C09": " Also: non-uniform pressure grids and frames with a non-default index, rescale rejections (outside the table, missing "
+           "column), any exception type counts as 'an error'.",
+    "C10": " The alphabet now has 12 (ideal: 8) letters plus setF/setP: grids A, A' (A stretched by 4 ppm), B (A's length and end "
+           "points), C, D (to depletion), E (single entry), two scheduled runs, a simulate that is rejected for a wrong-length schedule "
+           "(must leave no trace), rf, rf(density), interpolator; also a two-object product exploration (same / mixed class, two "
+           "single-phase fluids), a 60-node 128-level configuration, every history up to depth 2/3 over {simA, simB, setF, setP, rf} in "
+           "fresh interpreters in several orders (process-global state), and full-edge conformance with the TLC-checked model.",
+    "C11": " Also: Fluid.gas_FVF / gas_viscosity, unsorted arrays of 64 and 1000 pressures from 1 psia, one Fluid object whose "
+           "pressure array is updated in place between calls.",
+    "C12": " Also: continuity to 1e-13 + 20 x relative distance from p_b, the array forms on one array straddling p_b, Standing's "
+           "undersaturated compressibility below its pole.",
+    "C13": " Also: default and keyword standard conditions, non-round T / API / gravity; if a parent cannot carry a dual number the "
+           "reference falls back to Richardson finite differences (1e-7, nothing demanded next to a kink).",
+    "C14": " Also: one bad record among a hundred, cancelling sums, residuals leaving 1e-9 .. 0.04 of mobile pore space, connate "
+           "water that is not a short decimal, the helper's rows fed back through relative_permeabilities.",
+    "C15": " Also: initial pressure in the first / last cell and at the second / last node, mobilities of 1e-12, factors 1e-9 / 1e9, "
+           "a span where no phase flows (exactly flat), the caller's table is not modified.",
+    "C16": " Also: other saturations / array-valued Sw on the same PVT functions and the first call repeated, a family whose stored "
+           "mass falls with pressure, from_table on sorted / filtered DataFrames.",
+    "C17": " Also: a nearly uniform ('drift') grid and epoch-sized origins in the shift lattice, the interpolator on 1200-level runs "
+           "into depletion / 1e-6 increments / no drawdown, a constant schedule at another value than the object's own (list, "
+           "integer and float arrays), a rejected schedule leaves the object unchanged.",
+    "C18": " Also: the residual reported at the fitted parameters equals M x library forward model - production (recorder patched at "
+           "lmfit.Minimizer.__init__), near-equal tau / M / p_initial call pairs, a late build-up, index variants, NaN rates.",
+    "C19": " Also: pressures 1 .. 19 000 psia, full 14 000-psia tables (default maximum), each contaminant varied alone in the "
+           "histories, maxima just above a multiple of 10, normalised-looking fluid-type strings.",
+    "C20": " Also: both entry points (transform, transform_non_affine) of the pair obtained from the Axes' own scale, the Axes' "
+           "data -> display -> data round trip, x_max / y_max / plot_kwargs / own axes, 5001-level runs with the default stride.",
+}
+
 BASELINE_OFF = ("cd /repo && env -u BLUEBONNET_VERIF /venv/bin/python -m pytest -ra -q "
                 "-p no:cacheprovider --timeout=900 --continue-on-collection-errors")
 
@@ -279,7 +330,7 @@ def build():
             "evidence_file": f"/verif/evidence/{pid}.json",
             "replay_cmd_template": f"./check {pid} --replay {{path}}",
             "engine": "mc",
-            "level_claimed": {"category": level, "text": text, "design_ref": "DESIGN.md " + ref},
+            "level_claimed": {"category": level, "text": text + EXTRA.get(pid, ""), "design_ref": "DESIGN.md " + ref},
             "level_note": note,
             "technique": tech,
         })
